@@ -66,20 +66,20 @@ def showOptExpr : Option Expr → String
 
 mutual
 def showNode : AstNode → String
-  | .addr e => s!"(addr {showExpr e})"
-  | .align e => s!"(align {showExpr e})"
+  | .addr e _ => s!"(addr {showExpr e})"
+  | .align e _ => s!"(align {showExpr e})"
   | .assert e => s!"(assert {showExpr e})"
-  | .res e => s!"(res {showExpr e})"
-  | .bank n => s!"(bank {n})"
-  | .bankdef b => s!"(bankdef {b.name} bits={showOptExpr b.addrUnit} labelalign={showOptExpr b.labelAlign} addr={showOptExpr b.addrStart} addr_end={showOptExpr b.addrEnd} size={showOptExpr b.addrSize} outp={showOptExpr b.outp} fill={b.fill})"
-  | .data sz es => s!"(data {showSize sz}{showExprs es})"
-  | .fn n ps body => s!"(fn {n} ({" ".intercalate ps}) {showExpr body})"
+  | .res e _ => s!"(res {showExpr e})"
+  | .bank n _ => s!"(bank {n})"
+  | .bankdef b _ => s!"(bankdef {b.name} bits={showOptExpr b.addrUnit} labelalign={showOptExpr b.labelAlign} addr={showOptExpr b.addrStart} addr_end={showOptExpr b.addrEnd} size={showOptExpr b.addrSize} outp={showOptExpr b.outp} fill={b.fill})"
+  | .data sz es _ => s!"(data {showSize sz}{showExprs es})"
+  | .fn n ps body _ => s!"(fn {n} ({" ".intercalate ps}) {showExpr body})"
   | .ifDir c t f => s!"(if {showExpr c} (then{showNodes t}) {match f with | some f => "(else" ++ showNodes f ++ ")" | none => "-"})"
   | .include f => s!"(include {hexOfChars f})"
   | .once => "(once)"
-  | .ruledef n sub rules => s!"(ruledef {n.getD "-"} sub={sub}{String.join (rules.map fun r => " (rule [" ++ " ".intercalate (r.pattern.map showPatPart) ++ "] " ++ showExpr r.expr ++ ")")})"
-  | .instr src => s!"(instr {hexOfChars src})"
-  | .symbol lvl n k ne => s!"(sym {lvl} {n} {match k with | .label => "label" | .constant e => "const " ++ showExpr e} {ne})"
+  | .ruledef n sub rules _ => s!"(ruledef {n.getD "-"} sub={sub}{String.join (rules.map fun r => " (rule [" ++ " ".intercalate (r.pattern.map showPatPart) ++ "] " ++ showExpr r.expr ++ ")")})"
+  | .instr src _ => s!"(instr {hexOfChars src})"
+  | .symbol lvl n k ne _ => s!"(sym {lvl} {n} {match k with | .label => "label" | .constant e => "const " ++ showExpr e} {ne})"
 def showNodes : List AstNode → String
   | [] => ""
   | n :: ns => " " ++ showNode n ++ showNodes ns
